@@ -87,8 +87,9 @@ def plane3_params(pts):
     return n, d
 
 
-def surface_neg(kind, params, P):
-    """Negative-sense mask and decidedness of an elementary MCNP surface."""
+def surface_fs(kind, params, P):
+    """Core: returns (g, s, cone) where g is the MCNP surface function, s its
+    conditioning scale and cone = (apex, u, t2, sheet) for cones (else None)."""
     P = np.asarray(P, dtype=float)
     k = kind.lower()
     p = list(params)
@@ -103,11 +104,11 @@ def surface_neg(kind, params, P):
             g, s = _lin(P, n, d)
         else:
             raise ModelError('P with %d entries' % len(p))
-        return g < 0, _dec(g, s)
+        return g, s, None
     if k in ('px', 'py', 'pz'):
         ax = AXIS[k[1]]
         g = P[:, ax] - p[0]
-        return g < 0, _dec(g, np.abs(P[:, ax]) + abs(p[0]))
+        return g, np.abs(P[:, ax]) + abs(p[0]), None
     if k in ('so', 's', 'sx', 'sy', 'sz'):
         if k == 'so':
             c, r = (0., 0., 0.), p[0]
@@ -119,7 +120,7 @@ def surface_neg(kind, params, P):
             r = p[1]
         c = np.array(c, dtype=float)
         g = np.sum((P - c) ** 2, axis=1) - r * r
-        return g < 0, _dec(g, p2 + c @ c + r * r)
+        return g, p2 + c @ c + r * r, None
     if k in ('c/x', 'c/y', 'c/z', 'cx', 'cy', 'cz'):
         ax = AXIS[k[-1]]
         i, j = [q for q in range(3) if q != ax]
@@ -129,7 +130,7 @@ def surface_neg(kind, params, P):
             a0, b0, r = 0., 0., p[0]
         g = (P[:, i] - a0) ** 2 + (P[:, j] - b0) ** 2 - r * r
         s = P[:, i] ** 2 + P[:, j] ** 2 + a0 * a0 + b0 * b0 + r * r
-        return g < 0, _dec(g, s)
+        return g, s, None
     if k in ('k/x', 'k/y', 'k/z', 'kx', 'ky', 'kz'):
         ax = AXIS[k[-1]]
         if '/' in k:
@@ -143,7 +144,7 @@ def surface_neg(kind, params, P):
             sheet = p[2] if len(p) == 3 else 0
         u = np.zeros(3)
         u[ax] = 1.0
-        return cone_neg(P, apex, u, t2, sheet)
+        return _cone_fs(P, apex, u, t2, sheet)
     if k == 'sq':
         A, B, C, D, E, F, G, xb, yb, zb = p
         dx, dy, dz = x - xb, y - yb, z - zb
@@ -155,14 +156,14 @@ def surface_neg(kind, params, P):
              + 2 * abs(D) * (np.abs(x) + abs(xb))
              + 2 * abs(E) * (np.abs(y) + abs(yb))
              + 2 * abs(F) * (np.abs(z) + abs(zb)) + abs(G))
-        return g < 0, _dec(g, s)
+        return g, s, None
     if k == 'gq':
         A, B, C, D, E, F, G, H, J, K = p
         terms = [A * x * x, B * y * y, C * z * z, D * x * y, E * y * z,
                  F * z * x, G * x, H * y, J * z]
         g = sum(terms) + K
         s = sum(np.abs(t) for t in terms) + abs(K)
-        return g < 0, _dec(g, s)
+        return g, s, None
     if k in ('tx', 'ty', 'tz'):
         ax = AXIS[k[1]]
         i, j = [q for q in range(3) if q != ax]
@@ -173,22 +174,22 @@ def surface_neg(kind, params, P):
         g = axial ** 2 / B ** 2 + (radial - A) ** 2 / C ** 2 - 1.0
         c2 = c @ c
         s = (p2 + c2) / B ** 2 + (p2 + c2 + A * A) / C ** 2 + 1.0
-        return g < 0, _dec(g, s)
+        return g, s, None
     if k in ('x', 'y', 'z'):
         ax = AXIS[k]
         if len(p) == 2:
             g = P[:, ax] - p[0]
-            return g < 0, _dec(g, np.abs(P[:, ax]) + abs(p[0]))
+            return g, np.abs(P[:, ax]) + abs(p[0]), None
         if len(p) != 4:
             raise ModelError('%s with %d entries' % (k, len(p)))
         c1, r1, c2_, r2 = p
         i, j = [q for q in range(3) if q != ax]
         if c1 == c2_:
             g = P[:, ax] - c1
-            return g < 0, _dec(g, np.abs(P[:, ax]) + abs(c1))
+            return g, np.abs(P[:, ax]) + abs(c1), None
         if r1 == r2:
             g = P[:, i] ** 2 + P[:, j] ** 2 - r1 * r1
-            return g < 0, _dec(g, P[:, i] ** 2 + P[:, j] ** 2 + r1 * r1)
+            return g, P[:, i] ** 2 + P[:, j] ** 2 + r1 * r1, None
         t = (r1 - r2) / (c1 - c2_)
         c0 = c1 - r1 / t
         apex = np.zeros(3)
@@ -196,8 +197,26 @@ def surface_neg(kind, params, P):
         u = np.zeros(3)
         u[ax] = 1.0
         sheet = 1 if t > 0 else -1
-        return cone_neg(P, apex, u, t * t, sheet)
+        return _cone_fs(P, apex, u, t * t, sheet)
     raise ModelError('unknown surface kind %r' % kind)
+
+
+def _cone_fs(P, apex, u, t2, sheet):
+    D = P - apex
+    axial = D @ u
+    rad2 = np.sum(D * D, axis=1) - axial * axial
+    g = rad2 - t2 * axial * axial
+    s = (1.0 + t2) * (np.sum(P * P, axis=1) + apex @ apex)
+    return g, s, (apex, u, t2, sheet)
+
+
+def surface_neg(kind, params, P):
+    """Negative-sense mask and decidedness of an elementary MCNP surface."""
+    P = np.asarray(P, dtype=float)
+    g, s, cone = surface_fs(kind, params, P)
+    if cone is not None and cone[3]:
+        return cone_neg(P, *cone)
+    return g < 0, _dec(g, s)
 
 
 def cone_neg(P, apex, u, t2, sheet):
